@@ -67,6 +67,54 @@ pub fn read_probe(kind: Kind, variant: Variant, bytes: &[u8], side: &corpus::Sid
     })
 }
 
+/// Run-length form of a byte string: literal hex strings and `[byte, count]` pairs for runs of at least 64 equal
+/// bytes (inputs that provoke deep recursion consist of one long run; plain hex would make every witness huge).
+fn rle(b: &[u8]) -> Value {
+    let mut out: Vec<Value> = vec![];
+    let mut lit: Vec<u8> = vec![];
+    let mut i = 0;
+    while i < b.len() {
+        let mut j = i;
+        while j < b.len() && b[j] == b[i] {
+            j += 1;
+        }
+        if j - i >= 64 {
+            if !lit.is_empty() {
+                out.push(Value::String(hex(&lit)));
+                lit.clear();
+            }
+            out.push(json!([b[i], j - i]));
+        } else {
+            lit.extend_from_slice(&b[i..j]);
+        }
+        i = j;
+    }
+    if !lit.is_empty() {
+        out.push(Value::String(hex(&lit)));
+    }
+    Value::Array(out)
+}
+
+fn unrle(v: &Value) -> Option<Vec<u8>> {
+    let mut out = vec![];
+    for e in v.as_array()? {
+        match e {
+            Value::String(s) => out.extend(unhex(s)),
+            Value::Array(a) => out.extend(std::iter::repeat_n(a.first()?.as_u64()? as u8, a.get(1)?.as_u64()? as usize)),
+            _ => return None,
+        }
+    }
+    Some(out)
+}
+
+/// Bytes of a stored probe: `bytes_hex` or `bytes_rle`.
+fn stored_bytes(v: &Value) -> Option<Vec<u8>> {
+    match v["bytes_hex"].as_str() {
+        Some(s) => Some(unhex(s)),
+        None => unrle(&v["bytes_rle"]),
+    }
+}
+
 impl Probe {
     /// The reader / decoder / query entry this probe drives (part of hang / abort signatures).
     pub fn entry(&self) -> String {
@@ -89,11 +137,20 @@ impl Probe {
 
     pub fn to_json(&self, max_hex: usize) -> Value {
         let hx = |b: &Vec<u8>| if b.len() <= max_hex { Value::String(hex(b)) } else { Value::Null };
+        let rl = |b: &Vec<u8>| {
+            if b.len() <= max_hex {
+                return Value::Null;
+            }
+            let r = rle(b);
+            if r.to_string().len() <= 2 * max_hex { r } else { Value::Null }
+        };
         match self {
             Probe::Read { kind, variant, bytes, side_item } => {
-                json!({"probe": "read", "kind": kind.name(), "variant": variant_name(*variant), "side_item": side_item, "len": bytes.len(), "bytes_hex": hx(bytes)})
+                json!({"probe": "read", "kind": kind.name(), "variant": variant_name(*variant), "side_item": side_item, "len": bytes.len(), "bytes_hex": hx(bytes), "bytes_rle": rl(bytes)})
             }
-            Probe::DebugFmt { kind, bytes, side_item } => json!({"probe": "debugfmt", "kind": kind.name(), "side_item": side_item, "len": bytes.len(), "bytes_hex": hx(bytes)}),
+            Probe::DebugFmt { kind, bytes, side_item } => {
+                json!({"probe": "debugfmt", "kind": kind.name(), "side_item": side_item, "len": bytes.len(), "bytes_hex": hx(bytes), "bytes_rle": rl(bytes)})
+            }
             Probe::Codec { codec, bytes, size } => json!({"probe": "codec", "codec": codecs::CODECS[*codec], "size": size, "len": bytes.len(), "bytes_hex": hx(bytes)}),
             Probe::Query(q) => q.to_json(),
         }
@@ -104,12 +161,12 @@ impl Probe {
             "read" => Some(Probe::Read {
                 kind: Kind::from_name(v["kind"].as_str()?)?,
                 variant: variant_from(v["variant"].as_str().unwrap_or("primary")),
-                bytes: unhex(v["bytes_hex"].as_str()?),
+                bytes: stored_bytes(v)?,
                 side_item: v["side_item"].as_str().unwrap_or("").to_string(),
             }),
             "debugfmt" => Some(Probe::DebugFmt {
                 kind: Kind::from_name(v["kind"].as_str()?)?,
-                bytes: unhex(v["bytes_hex"].as_str()?),
+                bytes: stored_bytes(v)?,
                 side_item: v["side_item"].as_str().unwrap_or("").to_string(),
             }),
             "codec" => Some(Probe::Codec {
